@@ -491,7 +491,7 @@ def variant_search(B, start, removed, resp_locals):
                             if v in ('?', nv):
                                 nxt.append((tgt, nv))
                         handled = True
-            if not handled and sd and 'core::result::Result<' in sd[1] and sd[0]['l'] in resp_locals and _outer(B, {'k': 'cp', 'pl': sd[0]}, resp_locals):
+            if not handled and sd and sd[1].replace('&', '').startswith('core::result::Result<') and sd[0]['l'] in resp_locals and _outer(B, {'k': 'cp', 'pl': sd[0]}, resp_locals):
                 # `match outcome { Ok(..) => .., Err(_) => .. }` on the awaited result itself
                 pl, ty, cases, els = sd
                 got = set()
